@@ -187,6 +187,13 @@ static Reg r_gvacc("gvacc", [](const Args& a) {
     CircularEngine ce; double cx = 1, cy = 1, cz = 1, cv = ce(lon, cx, cy, cz), cv2 = ce(lon), cv3 = ce(0.6, 0.8), cv4 = ce(0.6, 0.8, cx, cy, cz);
     if (cv != 0 || cv2 != 0 || cv3 != 0 || cv4 != 0 || cx != 0 || cy != 0 || cz != 0) fail("circle-default", "a default-constructed CircularEngine (empty sum) returns " + fmt(cv) + " grad " + fmt(cx) + "," + fmt(cy) + "," + fmt(cz));
     out = hx(phi) + " " + hx(W) + " " + hx(V) + " " + hx(U) + " " + std::to_string(gm.Degree()) + " " + std::to_string(gm.Order());
+    {  // move construction and move assignment keep the model (the harmonic objects hold iterators into the coefficient vectors)
+      double g0[3], g1[3], g2[3], W0 = gm.Gravity(lat, lon, h, g0[0], g0[1], g0[2]), T0 = gm.T(X, Y, Z);
+      GravityModel moved(std::move(gm)); double W1 = moved.Gravity(lat, lon, h, g1[0], g1[1], g1[2]), T1 = moved.T(X, Y, Z);
+      GravityModel other(e.file, dir, 0, 0); other = std::move(moved); double W2 = other.Gravity(lat, lon, h, g2[0], g2[1], g2[2]), T2 = other.T(X, Y, Z);
+      if (!sameD(W0, W1) || !sameD(W0, W2) || !sameD(T0, T1) || !sameD(T0, T2) || !sameD(g0[2], g1[2]) || !sameD(g0[2], g2[2]) || other.Description() != Utility::trim(e.desc) || !sameD(other.MassConstant(), e.GMmodel))
+        fail("grav-move", "a move-constructed / move-assigned GravityModel evaluates differently: W " + fmt(W0) + " / " + fmt(W1) + " / " + fmt(W2) + ", T " + fmt(T0) + " / " + fmt(T1) + " / " + fmt(T2));
+    }
   });
   removeEgm(dir, e.file);
   if (!ex.empty()) { emit(ex); bad("grav-load", "a well-formed synthetic model was rejected: " + ex); return; }
@@ -226,7 +233,8 @@ static Reg r_mgacc("mgacc", [](const Args& a) {
   w.extra = r.coin() ? "Frobnicate 17\n# MinTime 1\n" : "";
   makeWmmCoeffs(r, w, true);
   std::string dir = tmpdir(); writeWmm(dir, w);
-  const Geocentric& earth = r.coin() ? Geocentric::WGS84() : *new Geocentric(6378388.0, 1 / 297.0);   // (leaked on purpose: a few dozen bytes per case)
+  static const Geocentric intl(6378388.0, 1 / 297.0);
+  const Geocentric& earth = r.coin() ? Geocentric::WGS84() : intl;
   std::string out; int nbad = 0;
   auto fail = [&](const char* rel, const std::string& what) { if (nbad++ < 6) bad(rel, what); };
   std::string ex = guarded([&] {
@@ -263,6 +271,12 @@ static Reg r_mgacc("mgacc", [](const Args& a) {
     if (!sameD(H, H4) || !sameD(F, F4) || (H != 0 && !sameD(D, D4)) || (F != 0 && !sameD(I, I4))) fail("mag-overloads", "FieldComponents(Bx, By, Bz, H, F, D, I) differs from the overload with rates: " + fmt(H4) + "," + fmt(F4) + "," + fmt(D4) + "," + fmt(I4) + " vs " + fmt(H) + "," + fmt(F) + "," + fmt(D) + "," + fmt(I));
     MagneticCircle c0; if (c0.Init() || !std::isnan(c0.EquatorialRadius()) || !std::isnan(c0.Flattening()) || !std::isnan(c0.Latitude()) || !std::isnan(c0.Height()) || !std::isnan(c0.Time())) fail("magcircle-accessor", "default-constructed MagneticCircle claims to be initialised");
     out = hx(B[0]) + " " + hx(B[1]) + " " + hx(B[2]) + " " + std::to_string(m.Degree()) + " " + std::to_string(m.Order());
+    {  // move construction and move assignment keep the model
+      double b1[3], b2[3]; MagneticModel moved(std::move(m)); moved(t, lat, lon, h, b1[0], b1[1], b1[2]);
+      MagneticModel other(w.file, dir, earth, 0, 0); other = std::move(moved); other(t, lat, lon, h, b2[0], b2[1], b2[2]);
+      for (int k = 0; k < 3; ++k) if (!sameD(b1[k], B[k]) || !sameD(b2[k], B[k])) { fail("mag-move", "a move-constructed / move-assigned MagneticModel evaluates differently"); break; }
+      if (other.Description() != Utility::trim(w.desc) || !sameD(other.MaxHeight(), w.hmax)) fail("mag-move", "a move-assigned MagneticModel lost its metadata");
+    }
   });
   removeWmm(dir, w.file);
   if (!ex.empty()) { emit(ex); bad("mag-load", "a well-formed synthetic model was rejected: " + ex); return; }
@@ -339,7 +353,11 @@ static Reg r_gzon("gzon", [](const Args& a) {
     double X, Y, Z; Geocentric::WGS84().Forward(r.range(-90, 90), r.range(-180, 180), r.range(0, 1e5), X, Y, Z);
     std::vector<double> zS; SphericalHarmonic hz(gm._zonal, zS, int(gm._zonal.size()) - 1, int(gm._zonal.size()) - 1, 0, gm._amodel, gm._norm);
     double Vg = gm._gravitational(X, Y, Z), Vz = hz(X, Y, Z), Td = gm._disturbing(-1, X, Y, Z);
-    if (!(std::fabs(Td - (Vg - Vz)) <= 1e-13 * (std::fabs(Vg) + std::fabs(Vz)))) bad("grav-T-decomposition", "disturbing sum " + fmt(Td) + " vs gravitational sum - normal zonal sum " + fmt(Vg - Vz));
+    // (accuracy class of the sums: relative to the sum of the magnitudes of the terms -- a single huge coefficient dominates it)
+    int nmxg = gm._gravitational.Coefficients().nmx(), mmxg = gm._gravitational.Coefficients().mmx();
+    LD mag = hsum(e.full, nmxg, mmxg, [&](int n, int m) -> LD { return n == 0 && m == 0 ? 1 : fabsl(e.s.c(n, m)) + (m == 0 && size_t(n) < gm._zonal.size() ? fabsl((LD)gm._zonal[size_t(n)]) : 0); },
+                  [&](int n, int m) -> LD { return fabsl(e.s.s(n, m)); }, (LD)X, (LD)Y, (LD)Z, (LD)gm._amodel).mag;
+    if (!(std::fabs(Td - (Vg - Vz)) <= 4e-12 * double(mag))) bad("grav-T-decomposition", "disturbing sum " + fmt(Td) + " vs gravitational sum - normal zonal sum " + fmt(Vg - Vz));
   });
   removeEgm(dir, e.file);
   if (!ex.empty()) { emit(ex); bad("grav-load", "a well-formed synthetic model was rejected: " + ex); return; }
